@@ -71,6 +71,7 @@ type domain struct {
 	elemFault float64
 	sleepy    float64
 	gate      float64
+	goexit    float64 // fraction of faults that kill the goroutine with runtime.Goexit
 }
 
 func domainFor(prop string) domain {
@@ -81,7 +82,9 @@ func domainFor(prop string) domain {
 	case "C10":
 		// mostly clean runs; element failures exercise "End hook never after a failed element"
 		d.pFault, d.perUnit, d.panics, d.elemFault = 0.3, 0, 0.4, 0.3
-	case "C15", "C03":
+	case "C03":
+		d.pFault, d.perUnit, d.elemFault, d.goexit = 0.4, 0.3, 0.2, 0.6
+	case "C15":
 	case "C01":
 		d.pFault, d.perUnit, d.panics = 0.4, 0.2, 0.3
 	case "C04":
@@ -93,6 +96,7 @@ func domainFor(prop string) domain {
 		d.pFault, d.perUnit, d.panics, d.elemFault = 0.9, 0.35, 0.3, 0.25
 	case "C05", "C06":
 		d.pFault, d.perUnit, d.panics, d.elemFault, d.cancel, d.predPanic = 0.7, 0.3, 0.4, 0.2, 0.35, 0.15
+		d.goexit = 0.25
 		d.g = []int{1, 1, 2, 4}
 	case "C09":
 		d.cancel, d.pFault, d.perUnit = 1, 0.2, 0.2
@@ -126,7 +130,9 @@ func genScenario(t *rapid.T, s *rt.Spec, d domain) *rt.Scenario {
 	}
 	fault := func(o *rt.Outcome, p float64) {
 		if faulty && prob(t, "fault", p) {
-			if prob(t, "panic", d.panics) {
+			if prob(t, "goexit", d.goexit) {
+				o.K = rt.OGoexit
+			} else if prob(t, "panic", d.panics) {
 				o.K, o.PV = rt.OPanic, uniform(t, "pv", 7)
 			} else {
 				o.K, o.EV = rt.OErr, []int{0, 0, 0, 0, 1, 2, 3, 3}[uniform(t, "ev", 8)]
@@ -494,6 +500,11 @@ func TestInner(t *testing.T) {
 							ll := map[string]interface{}{"h": scnHash(s, scn), "prog": s.Name, "faults": len(res.runs[0].Env.Injected), "g": scn.G}
 							if scn.GateU > 0 {
 								ll["gate"] = true
+							}
+							for _, inj := range res.runs[0].Env.Injected {
+								if inj.Goexit {
+									ll["goexit"] = true
+								}
 							}
 							if scn.CancelK != rt.CNone {
 								ll["cancel"] = scn.CancelK
